@@ -17,8 +17,9 @@ def cfgs():
     srv_ec = "keys ks id=%s ca=%s tickets=1" % (EC[0], EC[1])
     cli_ec = "keys kc ca=%s" % EC[1]
     C = []
-    def add(name, ks, kc, so, co, resume=False, fam="L", early=False):
-        C.append(dict(name=name, ks=ks, kc=kc, so=so, co=co, resume=resume, fam=fam, early=early))
+    def add(name, ks, kc, so, co, resume=False, fam="L", early=False, honest=True):
+        # honest=False: a configuration whose undisturbed handshake is meant to fail (tools/honest.py skips it)
+        C.append(dict(name=name, ks=ks, kc=kc, so=so, co=co, resume=resume, fam=fam, early=early, honest=honest))
     add("T12-ecdhe-rsa-gcm", srv_rsa, cli_rsa, "ver=T12", "ver=T12 suites=0xc02f")
     add("T12-rsa-cbc-sha256", srv_rsa, cli_rsa, "ver=T12", "ver=T12 suites=0x3c")
     add("T12-ecdhe-ecdsa-cbc", srv_ec, cli_ec, "ver=T12", "ver=T12 suites=0xc023")
@@ -46,9 +47,9 @@ def cfgs():
     add("T13-psk-declined", srv_rsa, cli_rsa + " psk13=1", "ver=T13", "ver=T13", fam="T13")
     # the client's only key share is for a group the server does not support: HelloRetryRequest, second ClientHello
     add("T13-hrr", srv_rsa, cli_rsa, "ver=T13 groups=24", "ver=T13 groups=23,24 shares=1", fam="T13")
-    add("T13-hrr-early-resumed", srv_rsa, cli_rsa, "ver=T13 early=16384 groups=24", "ver=T13 sid=R groups=23,24 shares=1", resume=True, fam="T13", early=True)
+    add("T13-hrr-early-resumed", srv_rsa, cli_rsa, "ver=T13 early=16384 groups=24", "ver=T13 sid=R groups=23,24 shares=1", resume=True, fam="T13", early=True, honest=False)
     # the server refuses the early data and its limit (40) lies between the largest early record (30) and their sum (42)
-    add("T13-early-rejected-overlimit", srv_rsa + " psk13=1 early=16384", cli_rsa + " psk13=1 early=16384", "ver=T13 early=40", "ver=T13", fam="T13", early=True)
+    add("T13-early-rejected-overlimit", srv_rsa + " psk13=1 early=16384", cli_rsa + " psk13=1 early=16384", "ver=T13 early=40", "ver=T13", fam="T13", early=True, honest=False)
     add("T13cap-neg12", srv_rsa, cli_rsa, "ver=T12", "ver=T11,T12,T13", fam="L")
     add("srv13cap-neg12", srv_rsa, cli_rsa, "ver=T11,T12,T13", "ver=T12 suites=0xc02f", fam="L")
     add("D12-ecdhe-rsa-gcm", srv_rsa, cli_rsa, "ver=D12", "ver=D12 suites=0xc02f")
